@@ -69,7 +69,8 @@ ConvValue(X, W, B, attrs) ==
 \* (image elements are value records, weights and bias small integers)
 XAtF(X, nn, c, p) == IF \A i \in 1..Len(p) : p[i] >= 0 /\ p[i] < X.shape[2 + i] THEN At(X, <<nn, c>> \o p) ELSE Fin(0)
 RECURSIVE FSumF(_, _, _)
-FSumF(F(_), lo, hi) == IF lo > hi THEN Fin(0) ELSE FAdd(F(lo), FSumF(F, lo + 1, hi))
+FSumF(F(_), lo, hi) == IF lo > hi THEN Fin(0) ELSE IF lo = hi THEN FAdd(F(lo), Fin(0))
+                       ELSE LET mid == (lo + hi) \div 2 IN FAdd(FSumF(F, lo, mid), FSumF(F, mid + 1, hi))
 ConvValueF(X, W, B, attrs) ==
    LET g == ConvGeometry(X, W, attrs)
        oshape == <<X.shape[1], W.shape[1]>> \o g.oSp
